@@ -61,12 +61,13 @@ const inprocWatchdog = 20 * time.Second
 
 // inprocWorker is one subprocess; calls are serialised per worker.
 type inprocWorker struct {
-	env  []string
-	bin  string
-	cmd  *exec.Cmd
-	in   io.WriteCloser
-	out  *bufio.Reader
-	next int64
+	env      []string
+	bin      string
+	cmd      *exec.Cmd
+	in       io.WriteCloser
+	out      *bufio.Reader
+	next     int64
+	watchdog time.Duration // 0: inprocWatchdog
 }
 
 func (w *inprocWorker) start() error {
@@ -113,7 +114,11 @@ func (w *inprocWorker) runMode(root, text, mode string) (inprocReply, error) {
 	// watchdog: code under test that loops forever must not hang the harness
 	proc := w.cmd.Process
 	var hung int32
-	timer := time.AfterFunc(inprocWatchdog, func() { atomic.StoreInt32(&hung, 1); proc.Kill() })
+	wd := w.watchdog
+	if wd == 0 {
+		wd = inprocWatchdog
+	}
+	timer := time.AfterFunc(wd, func() { atomic.StoreInt32(&hung, 1); proc.Kill() })
 	line, err := w.out.ReadBytes('\n')
 	timer.Stop()
 	if err != nil {
